@@ -131,4 +131,22 @@ PROPS = {
         "components_stub": ["ShotOnlyDevice(Backend) (frequency route with statevector_available=False)"],
         "assumptions": _TRUST + ["dsim/ref/opmodel.py dense Pauli operators are correct"],
     },
+    "C20": {
+        "world": "dsim.worlds.phase.PhaseWorld",
+        "tiers": {"quick": {"runs": 480, "chunk": 4, "run_cap_s": 200, "wall_cap_s": 600},
+                  "thorough": {"runs": 12000, "chunk": 8, "run_cap_s": 400, "wall_cap_s": 2700}},
+        "rule": "one evaluation = one simulated run of 4-18 steps: iterative QPE (register 1-6, 1-3 shots, two simulate() calls per "
+                "solver object) on eigenstates with exactly representable eigenphases (diagonal and non-diagonal commuting "
+                "Hamiltonians through Trotter-Suzuki with order/steps/method varied, circuit unitaries) with every measurement draw "
+                "served by the RNG seam incl. scripted draws in [1e-9, 1-1e-9]; standard QPE exact and sampled; QFT on random qubit "
+                "lists inside wider circuits (swap on/off, inverse) against the DFT matrix; StateVector initialising / uncomputing "
+                "circuits for random, sparse, real and basis vectors in both orders. Phases are generated and compared as integers "
+                "k/2^m. Distinct = (step kind, problem kind, register size, state qubits, shots, scripted?) tuples; non-trivial = "
+                "run with >=3 steps of >=2 kinds or >=1 scripted draw.",
+        "probes": ["C20.shots_after_first_reuse_controller", "C20.second_simulate_on_same_solver"],
+        "components_real": ["IterativeQPESolver + IterativeQPEControl, QPESolver, TrotterSuzukiUnitary, CircuitUnitary, trotterize, "
+                            "get_qft_circuit, StateVector, CirqSimulator CMEASURE shot loop, cirq"],
+        "components_stub": [],
+        "assumptions": _TRUST + ["eigenphases are exact by construction (integer multiples of 2*pi/2^m, commuting terms)"],
+    },
 }
